@@ -4,6 +4,7 @@ import JSight.Model.Descr
 import JSight.Model.Context
 import JSight.Model.Paste
 import JSight.Model.Build
+import JSight.Model.IncName
 /-!
 The composed model of a single-file project: bytes → lexemes (`Model/Scanner`, the regenerated table) →
 directives with their parameters, annotation, body and parenthesis flag (`assemble`: model of
@@ -74,7 +75,13 @@ def RDir.toDir (r : RDir) : Dir :=
     name := if r.kind == Kind.Macro || r.kind == Kind.Paste then nameCode (r.param "Name") else 0,
     annot := !r.annot.isEmpty, id := r.pos }
 
+/-- the diagnostics of `processInclude` and of the JSIGHT-in-an-included-file check (projects of several files) -/
+inductive IncFault where
+  | required | badName | missing | isDirectory | recursion | jsightInIncluded
+  deriving Repr, DecidableEq
+
 inductive PErr where
+  | incl (k : IncFault) (idx : Nat)       -- projects of several files: at the INCLUDE (JSIGHT) keyword
   | scan (idx : Nat)                      -- a diagnostic of the scanner
   | fault (f : Fault)                     -- what Go would panic / hang on
   | oracleMiss (enum : Bool) (cur : Nat)  -- correspondence runs only
@@ -249,6 +256,202 @@ def process (content : Bytes) (o : Oracle) (banned : List Kind) : Except PErr Bu
       let (bf, _) := decoForest d done expanded 0
       match Build.compile banned bf with
       | .error e => .error (buildErrAt done expanded e)
+      | .ok c => .ok c
+
+/-! ## projects of several files: INCLUDE at the level of bytes
+
+`core/include.go processInclude / getIncludedFilePath`, `scanner/stack.go Push / Pop`, the `scanProject` loop and the
+JSIGHT-in-an-included-file check of `processKeyword`, over the lexeme streams of the files (each file has its own scanner,
+which is suspended at the INCLUDE and resumed after the included file).  The file system is a list of (cleaned path
+relative to the directory of the root file, content or directory); the included path is
+`filepath.Join(filepath.Dir(including file), written name)` in the lexical model of `Model/IncName.lean`.
+
+A directive is identified by (file, keyword position), coded as `pos * n + file` where `n` is the number of entries of the
+file system. -/
+
+/-- a file system: path (cleaned, relative to the root file's directory) ↦ content, or a directory -/
+abbrev PFS := List (Bytes × Option Bytes)
+
+def PFS.find (fs : PFS) (path : Bytes) : Option (Nat × Option Bytes) :=
+  let rec go (i : Nat) : List (Bytes × Option Bytes) → Option (Nat × Option Bytes)
+    | [] => none
+    | (p, c) :: r => if p == path then some (i, c) else go (i + 1) r
+  go 0 fs
+
+/-- where a diagnostic is: the file (index in the file system) and the diagnostic of the single-file vocabulary -/
+structure FErr where
+  file : Nat
+  err : PErr
+  deriving Repr
+
+/-- the scan of one file: its lexemes (with the scanner's index at each delivery), how the scan ended, the final index -/
+structure FScan where
+  lexs : List (Lexeme × Nat)
+  stop : Option Stop
+  endCur : Nat
+
+def scanBytes (content : Bytes) (o : Oracle) : FScan :=
+  match firstInvalidUTF8 content with
+  | some i => { lexs := [], stop := some (.diag i), endCur := 0 }
+  | none =>
+    let d := Src.ofArray content.toArray
+    let (l, s, sc) := lexAllC d o (d.size + 2) Sc.init []
+    { lexs := l, stop := s, endCur := sc.cur }
+
+def codeId (n file pos : Nat) : Nat := pos * n + file
+def idFile (n id : Nat) : Nat := id % n
+def idPos (n id : Nat) : Nat := id / n
+
+/-- `processCurrentDirective` in a project: a context error is located at the directive's own file and keyword -/
+def flushF (n : Nat) (st : ASt) : Except FErr ASt :=
+  match st.cur with
+  | none => .ok st
+  | some r =>
+    match place st.ctx.frames st.ctx.roots r.toDir with
+    | .error e => .error ⟨idFile n r.pos, .ctx e (idPos n r.pos)⟩
+    | .ok c => .ok { cur := none, ctx := c, done := r :: st.done }
+
+/-- diagnostics of `processInclude`, all located at the INCLUDE keyword -/
+def incErr (file pos : Nat) (k : IncFault) : FErr := ⟨file, .incl k pos⟩
+
+/-- the lexemes of one file, with INCLUDE handled by `incl` (the scan of the included file, given the new stack) -/
+def runLexs (n : Nat) (d : Src) (name : Bytes) (fs : PFS) (banned : List Kind) (stop : Option Stop)
+    (incl : List (Nat × Nat) → Nat → ASt → Except FErr ASt) (stack : List (Nat × Nat)) (f : Nat) :
+    List (Lexeme × Nat) → ASt → Except FErr ASt
+  | [], st => .ok st
+  | (lex, cur) :: rest, st =>
+    let val := d.slice lex.b lex.e1
+    if lex.ty == .keyword && val == includeName then
+      -- `processInclude`
+      match flushF n st with
+      | .error e => .error e
+      | .ok st1 =>
+        if banned.contains Kind.Include then .error ⟨f, .notAllowed lex.b⟩
+        else
+          match rest with
+          | [] =>
+            -- `core.scanner.Next()` for the file name: the scanner's own error, or no lexeme at all
+            (match stop with
+             | some (.diag i) => .error ⟨f, .scan i⟩
+             | some (.fault x) => .error ⟨f, .fault x⟩
+             | some (.oracleMiss e c) => .error ⟨f, .oracleMiss e c⟩
+             | none => .error (incErr f lex.b .required))
+          | (p, _) :: rest' =>
+            if p.ty != .parameter then .error (incErr f lex.b .required)
+            else
+              let path := d.slice p.b p.e1
+              match validName path with
+              | .error _ => .error (incErr f lex.b .badName)
+              | .ok _ =>
+                match fs.find (pathJoin (pathDir name) path) with
+                | none => .error (incErr f lex.b .missing)
+                | some (_, none) => .error (incErr f lex.b .isDirectory)
+                | some (g, some _) =>
+                  if stack.any (·.1 == f) then .error (incErr f lex.b .recursion)
+                  else
+                    match incl ((f, lex.b) :: stack) g st1 with
+                    | .error e => .error e
+                    | .ok st2 => runLexs n d name fs banned stop incl stack f rest' st2
+    else if lex.ty == .keyword && !stack.isEmpty && val == "JSIGHT".toUTF8.toList then
+      -- `processKeyword`: the previous directive is placed first, then JSIGHT is refused in an included file
+      match flushF n st with
+      | .error e => .error e
+      | .ok _ => .error (incErr f lex.b .jsightInIncluded)
+    else
+      -- every other lexeme: as in a single file, with the identity of a directive coded with its file
+      let lex' : Lexeme := lex
+      match st.cur, lex.ty with
+      | _, .keyword =>
+        (match flushF n st with
+         | .error e => .error e
+         | .ok st1 =>
+           match kindOfKeyword val with
+           | none => .error ⟨f, .unknownDirective lex.b⟩
+           | some k =>
+             if banned.contains k then .error ⟨f, .notAllowed lex.b⟩
+             else runLexs n d name fs banned stop incl stack f rest
+               { st1 with cur := some { kind := k, pos := codeId n f lex.b, keyword := val } })
+      | _, .contextClose =>
+        (match flushF n st with
+         | .error e => .error e
+         | .ok st1 =>
+           match closeExplicit st1.ctx.frames st1.ctx.roots with
+           | .error e => .error ⟨f, .ctx e (ctxErrIdx cur e)⟩
+           | .ok c => runLexs n d name fs banned stop incl stack f rest { st1 with ctx := c })
+      | _, _ =>
+        match step d banned st lex' cur with
+        | .error e => .error ⟨f, e⟩
+        | .ok st' => runLexs n d name fs banned stop incl stack f rest st'
+
+/-- `scanProject` from the file `f` on: its lexemes, its scanner's end, `processEOF`, `Pop` -/
+def runFile (fs : PFS) (o : Nat → Oracle) (banned : List Kind) :
+    Nat → List (Nat × Nat) → Nat → ASt → Except FErr ASt
+  | 0, _, f, _ => .error ⟨f, .fault .fuel⟩
+  | fuel + 1, stack, f, st =>
+    match fs[f]? with
+    | some (name, some content) =>
+      let sc := scanBytes content (o f)
+      let d := Src.ofArray content.toArray
+      match runLexs fs.length d name fs banned sc.stop (runFile fs o banned fuel) stack f sc.lexs st with
+      | .error e => .error e
+      | .ok st1 =>
+        match sc.stop with
+        | some (.diag i) => .error ⟨f, .scan i⟩
+        | some (.fault x) => .error ⟨f, .fault x⟩
+        | some (.oracleMiss e c) => .error ⟨f, .oracleMiss e c⟩
+        | none =>
+          match flushF fs.length st1 with
+          | .error e => .error e
+          | .ok st2 =>
+            if anyExplicit st2.ctx.frames then .error ⟨f, .ctx .unclosedAtEOF (sc.endCur - 1)⟩ else .ok st2
+    | _ => .error ⟨f, .fault .nilDeref⟩
+
+/-- body bytes of a directive of a project -/
+def toBDirF (fs : PFS) (done : List RDir) (id : Nat) (x : Dir) : Build.BDir :=
+  match findDir done x.id with
+  | some r =>
+    let content : Bytes := match fs[idFile fs.length r.pos]? with
+      | some (_, some c) => c
+      | _ => []
+    let d := Src.ofArray content.toArray
+    { kind := x.kind, id := id, src := r.pos + 1, keyword := r.keyword, named := r.params.named,
+      unnamed := r.params.unnamed, annot := r.annot, body := r.body.map fun (b, e1) => d.slice b e1 }
+  | none => { kind := x.kind, id := id, src := x.id + 1 }
+
+mutual
+  def decoTreeF (fs : PFS) (done : List RDir) : Tree → Nat → Build.BTree × Nat
+    | .node x kids, id =>
+      let (ks, id') := decoForestF fs done kids (id + 1)
+      (.node (toBDirF fs done id x) ks, id')
+  def decoForestF (fs : PFS) (done : List RDir) : List Tree → Nat → List Build.BTree × Nat
+    | [], id => ([], id)
+    | t :: r, id =>
+      let (t', id1) := decoTreeF fs done t id
+      let (r', id2) := decoForestF fs done r id1
+      (t' :: r', id2)
+end
+
+/-- `processJApiProject` of a project of several files (the root is entry 0 of the file system) -/
+def processFS (fs : PFS) (o : Nat → Oracle) (banned : List Kind) : Except FErr Build.Cat :=
+  let n := fs.length
+  match runFile fs o banned (n + 2) [] 0 {} with
+  | .error e => .error e
+  | .ok st =>
+    let forest := closeAll st.ctx.frames st.ctx.roots
+    match expand forest with
+    | .error e =>
+      let loc : Nat := match e with
+        | .annotation id | .nameMissing id | .emptyMacro id | .duplicate id | .recursion id | .notFound id | .inPaste id => id
+        | .ctx (.incorrectContext id) | .ctx (.pathMethodInExplicit id) => id
+        | _ => 0
+      .error ⟨idFile n loc, .paste e⟩
+    | .ok expanded =>
+      let (bf, _) := decoForestF fs st.done expanded 0
+      match Build.compile banned bf with
+      | .error e =>
+        match buildErrAt st.done expanded e with
+        | .build e' i be => .error ⟨idFile n i, .build e' i be⟩
+        | x => .error ⟨0, x⟩
       | .ok c => .ok c
 
 end JSight.Project
